@@ -74,6 +74,13 @@ static rlbox::tainted<long, Sbx> cbA(rlbox::rlbox_sandbox<Sbx>& sb, rlbox::taint
 {
   return cb_body(N, &sb, a.UNSAFE_unverified(), b.UNSAFE_unverified());
 }
+// same guest-visible signature, but declared with tainted_opaque parameter and result
+template<class Sbx, int N>
+static rlbox::tainted_opaque<long, Sbx> cbO(rlbox::rlbox_sandbox<Sbx>& sb, rlbox::tainted_opaque<long, Sbx> a, rlbox::tainted<unsigned, Sbx> b)
+{
+  rlbox::tainted<long, Sbx> r = cb_body(N, &sb, rlbox::from_opaque(a).UNSAFE_unverified(), b.UNSAFE_unverified());
+  return r.to_opaque();
+}
 template<class Sbx, int N>
 static void cbV(rlbox::rlbox_sandbox<Sbx>& sb)
 {
@@ -85,10 +92,26 @@ using FnA = rlbox::tainted<long, Sbx> (*)(rlbox::rlbox_sandbox<Sbx>&, rlbox::tai
 template<class Sbx>
 using FnV = void (*)(rlbox::rlbox_sandbox<Sbx>&);
 
-template<class Sbx, size_t... I>
-static std::array<FnA<Sbx>, sizeof...(I)> make_poolA(std::index_sequence<I...>)
+template<class Sbx>
+struct RegA
 {
-  return { { &cbA<Sbx, (int)I>... } };
+  using Owner = rlbox::sandbox_callback<long (*)(long, unsigned), Sbx>;
+  Owner (*reg)(rlbox::rlbox_sandbox<Sbx>&);
+  void* key;
+};
+template<class Sbx, int N>
+static RegA<Sbx> make_regA()
+{
+  using Owner = typename RegA<Sbx>::Owner;
+  if constexpr (N % 5 == 4) // every fifth function of the pool uses the opaque form
+    return RegA<Sbx>{ [](rlbox::rlbox_sandbox<Sbx>& sb) -> Owner { return sb.register_callback(&cbO<Sbx, N>); }, (void*)&cbO<Sbx, N> };
+  else
+    return RegA<Sbx>{ [](rlbox::rlbox_sandbox<Sbx>& sb) -> Owner { return sb.register_callback(&cbA<Sbx, N>); }, (void*)&cbA<Sbx, N> };
+}
+template<class Sbx, size_t... I>
+static std::array<RegA<Sbx>, sizeof...(I)> make_poolA(std::index_sequence<I...>)
+{
+  return { { make_regA<Sbx, (int)I>()... } };
 }
 template<class Sbx, size_t... I>
 static std::array<FnV<Sbx>, sizeof...(I)> make_poolV(std::index_sequence<I...>)
@@ -259,7 +282,7 @@ struct Runner
   Ctx& c;
   std::vector<SbxModel> S;
   std::vector<Slot> slots;
-  std::array<FnA<Sbx>, POOL> poolA = make_poolA<Sbx>(std::make_index_sequence<POOL>());
+  std::array<RegA<Sbx>, POOL> poolA = make_poolA<Sbx>(std::make_index_sequence<POOL>());
   std::array<FnV<Sbx>, 8> poolV = make_poolV<Sbx>(std::make_index_sequence<8>());
   const char* opn = "";
 
@@ -337,7 +360,7 @@ struct Runner
           if (e.kind == 2)
             in_table.insert(e.key);
         for (auto& [f, si] : S[s].reg)
-          in_model.insert(f >= 100 ? (void*)poolV[(size_t)(f - 100)] : (void*)poolA[(size_t)f]);
+          in_model.insert(f >= 100 ? (void*)poolV[(size_t)(f - 100)] : poolA[(size_t)f].key);
         if (in_table != in_model) {
           c.violate("C13",
                     std::string("reachable_set_differs_from_live_owners@") + opn,
@@ -359,7 +382,7 @@ struct Runner
     if (f >= 100)
       o = attempt([&] { sl.v = std::make_unique<OwnerV>(m.sb->register_callback(poolV[(size_t)(f - 100)])); });
     else
-      o = attempt([&] { sl.a = std::make_unique<OwnerA>(m.sb->register_callback(poolA[(size_t)f])); });
+      o = attempt([&] { sl.a = std::make_unique<OwnerA>(poolA[(size_t)f].reg(*m.sb)); });
     c.ev("register #%d f%d -> %s", s, f, oname(o));
     if (!m.created) {
       if (o != ABORT)
